@@ -140,4 +140,13 @@ PROPS["C15"] = {
     "assumptions": ["Notifier callbacks are delivered sequentially (libp2p service calls Connected/Disconnected one at a time)"],
 }
 
+PROPS["C14"] = {
+    "harness": {"kind": "overlay", "pkg": "pkg/p2p/libp2p", "pkgname": "libp2p",
+                "files": ["libp2p/c14_test.go"], "test": "TestVerifC14"},
+    "level_text": "Theorems for every sequence (hence every interleaving of the atomic, mutex-protected registry operations) of admissions incl. repeated and multi-connection ones, connection closures tracked or not, lookups, stream registrations/removals - under the hypothesis (discharged by C04) that the recorded address is an injective function of the peer id: an invariant (address map and id map mutually inverse; peer registered iff its tracked connection set is non-empty; stream table domain = registered peers) holds in every reachable state; the unguarded dereference in Disconnected is unreachable (no panic); closing the last tracked connection removes the peer from both maps, cancels every recorded handler context and appends exactly one notification; untracked closures change nothing; and a refinement theorem: the four concrete maps are at all times the projections of an abstract one-map specification (peer id -> proven peer, open connections, handler streams), so lookups by id and address, cancellations and notifications are those of the abstract machine. Tied to the real peerRegistry with fake network.Conn/Stream values: exhaustive sequences over 2 peers x 2 connections x 2 streams, random long ones, incl. the lookup/close/addStream schedule of the handler wrapper.",
+    "level_note": "Trusted: Lean kernel; harness; libp2p delivering Disconnected for every closed connection; atomicity of each registry method (one mutex). The two-step stream opening of the wrapper is modelled as two steps: a handler whose peer disconnects between getPeer and addStream runs with a context the registry never cancels (allowed by the statement as written, recorded in DESIGN.md as D14).",
+    "nontrivial_rule": "distinct (tag, model snapshot list) pairs",
+    "assumptions": ["recorded address = injective function of the peer id (property C04)", "a closed connection id is never admitted again"],
+}
+
 NOT_CLAIMED = {}
